@@ -212,8 +212,15 @@ func golubKahanSVD(inSitu *InSitu, epsilon float64) (Matrix, Matrix, Matrix, err
   }
   B := H.Slice(0,n,0,n)
 
-  for p, q := 0, 0; q < n; {
+  // the number of steps is bounded, otherwise the algorithm does not terminate
+  // if the convergence criterion cannot be met (e.g. if entries overflow)
+  maxIterations := 10000 + 1000*n*n
 
+  for p, q, k := 0, 0, 0; q < n; k++ {
+
+    if k > maxIterations {
+      return nil, nil, nil, fmt.Errorf("SVD did not converge")
+    }
     for i := 0; i < n-1; i++ {
       b11 := B.At(i  ,i  ).GetFloat64()
       b12 := B.At(i  ,i+1).GetFloat64()
